@@ -216,9 +216,65 @@ async fn default_timeouts(a: &Value) -> Value {
     }
 }
 
+/// C02 on real networks: `n` concurrent RPCs in both directions over ONE connection, each with its own body and its own handler delay;
+/// optionally a response larger than the server's frame limit (a fault after the handler ran).  Reports per-call pairing and how many
+/// times the handler ran for each request.
+async fn rpc_pairing(a: &Value) -> Value {
+    use std::sync::{Arc, Mutex};
+    let n = a["n"].as_u64().unwrap_or(8) as usize;
+    let big = a.get("oversized_response").and_then(|x| x.as_bool()).unwrap_or(false);
+    let calls: Arc<Mutex<HashMap<Vec<u8>, u32>>> = Arc::new(Mutex::new(HashMap::new()));
+    let mk = |calls: Arc<Mutex<HashMap<Vec<u8>, u32>>>, big: bool| tower::ServiceExt::boxed_clone(tower::service_fn(move |r: Request<Bytes>| {
+        let calls = calls.clone();
+        async move {
+            let body = r.body().to_vec();
+            *calls.lock().unwrap().entry(body.clone()).or_insert(0) += 1;
+            let d = (body.get(1).copied().unwrap_or(0) as u64 * 7) % 40;      // handlers complete out of order
+            tokio::time::sleep(Duration::from_millis(d)).await;
+            let mut out = b"re:".to_vec(); out.extend_from_slice(&body);
+            if big { out.resize(5000, 0x42); }
+            Ok::<_, std::convert::Infallible>(Response::new(Bytes::from(out)).with_header("echo-route", r.route()))
+        }
+    }));
+    let mut scfg = Config::default();
+    if big { scfg.max_frame_size = Some(2000); }
+    let server = anemo::Network::bind("127.0.0.1:0").server_name("verif").private_key([5; 32]).config(scfg).start(mk(calls.clone(), big)).expect("server");
+    let client = anemo::Network::bind("127.0.0.1:0").server_name("verif").private_key([6; 32]).start(mk(calls.clone(), false)).expect("client");
+    let sid = client.connect(server.local_addr()).await.expect("connect");
+    let cid = client.peer_id();
+    for _ in 0..200 { if server.peers().contains(&cid) { break; } tokio::time::sleep(Duration::from_millis(5)).await; }
+    let mut hs = Vec::new();
+    for i in 0..n {
+        let (from, to, tag) = if i % 2 == 0 { (client.clone(), sid, b'c') } else { (server.clone(), cid, b's') };
+        hs.push(tokio::spawn(async move {
+            let body = vec![tag, i as u8, (i * 31) as u8];
+            let req = Request::new(Bytes::from(body.clone())).with_route(format!("/r{i}"));
+            let r = from.rpc(to, req).await;
+            (body, i, r.map(|resp| (resp.status().to_u16(), resp.headers().get("echo-route").cloned(), resp.body().to_vec())).map_err(|e| e.to_string()))
+        }));
+    }
+    let mut mismatched = Vec::new();
+    let mut errors = 0;
+    for h in hs {
+        let (body, i, r) = h.await.unwrap();
+        match r {
+            Ok((status, route, rb)) => {
+                let mut want = b"re:".to_vec(); want.extend_from_slice(&body);
+                let ok = status == 200 && route.as_deref() == Some(format!("/r{i}").as_str()) && (rb == want || (big && rb.len() == 5000 && rb[..want.len()] == want[..]));
+                if !ok { mismatched.push(i); }
+            }
+            Err(_) => errors += 1,
+        }
+    }
+    tokio::time::sleep(Duration::from_millis(60)).await;
+    let max_calls = calls.lock().unwrap().values().copied().max().unwrap_or(0);
+    let handled = calls.lock().unwrap().len();
+    json!({"n": n, "mismatched": mismatched, "errors": errors, "max_handler_invocations_per_request": max_calls, "requests_handled": handled})
+}
+
 fn main() {
     let args: Vec<String> = std::env::args().collect();
-    let multi = matches!(args.get(1).map(|s| s.as_str()), Some("admission") | Some("default_timeouts"));
+    let multi = matches!(args.get(1).map(|s| s.as_str()), Some("admission") | Some("default_timeouts") | Some("rpc_pairing"));
     let rt = if multi {
         tokio::runtime::Builder::new_multi_thread().worker_threads(2).enable_all().build().unwrap()
     } else {
@@ -321,6 +377,7 @@ async fn run(args: Vec<String>) {
         "timeout_select" => timeout_select(&a).await,
         "auth" => auth(&a).await,
         "admission" => admission(&a).await,
+        "rpc_pairing" => rpc_pairing(&a).await,
         "default_timeouts" => default_timeouts(&a).await,
         other => json!({"error": format!("unknown scenario {other}")}),
     };
